@@ -223,7 +223,7 @@ func runTransitionOpts(cfg *config, opts map[string]pkgOpts, ops []op, res *engi
 		}
 		preCache[ck] = pi
 	}
-	gPre, _ := pre.abstract(false)
+	gPre, _, _ := pre.abstract(false)
 	if n == 0 {
 		// root: the state the creation must produce
 		if created == nil {
@@ -330,8 +330,8 @@ func judge(cfg *config, res *engine.Result, last *op, slots []slot, obs, obsPre 
 	var best *verdict
 	seenPre := map[string]bool{}
 	for _, preHome := range []bool{false, true} {
-		gPre, aliasedPre := pre.abstract(preHome)
-		k := gPre.String() + fmt.Sprint(aliasedPre)
+		gPre, aliasedPre, leftPre := pre.abstract(preHome)
+		k := gPre.String() + fmt.Sprint(aliasedPre, leftPre)
 		if seenPre[k] {
 			continue
 		}
@@ -363,7 +363,7 @@ func judge(cfg *config, res *engine.Result, last *op, slots []slot, obs, obsPre 
 			}
 		}
 		for i, sl := range slots {
-			if slotAliased(sl, aliasedPre) || badName[string(sl.kind)+sl.name] {
+			if slotAliased(sl, aliasedPre) || slotAliased(sl, leftPre) || badName[string(sl.kind)+sl.name] {
 				skip[i] = true
 			}
 		}
@@ -408,7 +408,7 @@ func judge(cfg *config, res *engine.Result, last *op, slots []slot, obs, obsPre 
 		}
 		// I: the lookups agree with the tables of the post-state (either reading)
 		for pk, postHome := range []bool{false, true} {
-			gPost, aliasedPost := post.abstract(postHome)
+			gPost, aliasedPost, leftPost := post.abstract(postHome)
 			skipI := map[int]bool{}
 			for i := range skip {
 				skipI[i] = true
@@ -417,7 +417,7 @@ func judge(cfg *config, res *engine.Result, last *op, slots []slot, obs, obsPre 
 				skipI[i] = true
 			}
 			for i, sl := range slots {
-				if slotAliased(sl, aliasedPost) {
+				if slotAliased(sl, aliasedPost) || slotAliased(sl, leftPost) {
 					skipI[i] = true
 				}
 			}
